@@ -415,12 +415,22 @@ func coerceExec(input sx.S) (obs sx.S) {
 	if err := root.ParseString(coerceSDL); err != nil {
 		return sx.L("schema-error", sx.Hex(err.Error()))
 	}
+	bound := l[1].(string) == "inb"
+	if bound {
+		// the input types are bound to Go structs: the coerced object arrives as a struct value
+		if err := root.RegisterType(&coT41{}, "T41"); err != nil {
+			return sx.L("register-error", sx.Hex(err.Error()))
+		}
+		if err := root.RegisterType(&coT40{}, "T40"); err != nil {
+			return sx.L("register-error", sx.Hex(err.Error()))
+		}
+	}
 	t := coerceType(root, l[2])
 	v := coerceGoValue(l[3])
 	wantTime = sx.Head(l[2]) == "sc" && sx.List(l[2])[1].(string) == "Time"
 	var out interface{}
 	var err error
-	if l[1].(string) == "in" {
+	if l[1].(string) == "in" || bound {
 		ic, ok := t.(ggql.InCoercer)
 		if !ok {
 			return sx.L("not-a-coercer")
@@ -433,6 +443,9 @@ func coerceExec(input sx.S) (obs sx.S) {
 		}
 		out, err = oc.CoerceOut(v)
 	}
+	if bound && err == nil {
+		out = coUnbind(out, l[3])
+	}
 	if err != nil {
 		if l[1].(string) == "out" && out != nil {
 			return sx.L("err-with-value", canonOut(out, l[3])) // the unconverted value leaks next to the error
@@ -440,6 +453,59 @@ func coerceExec(input sx.S) (obs sx.S) {
 		return sx.L("err")
 	}
 	return sx.L("ok", canonOut(out, l[3]))
+}
+
+// coT40 / coT41: the Go structs the input types are bound to in the "inb" cases. Every field takes any
+// value, so the struct holds exactly what coercion set (a field never set is nil).
+type coT41 struct{ A1, A2, A3 interface{} }
+type coT40 struct{ A1, A2, A3, A4, A5 interface{} }
+
+// coUnbind writes a struct value back as the map it stands for. A struct cannot tell a key that was not
+// given from a key given as null: a nil field is listed (as null) when the client wrote the key.
+func coUnbind(out interface{}, in sx.S) interface{} {
+	given := map[int]sx.S{}
+	if sx.Head(in) == "m" {
+		for _, kv := range sx.List(in)[1:] {
+			given[sx.Int(sx.List(kv)[0])] = sx.List(kv)[1]
+		}
+	}
+	fields := func(vals ...interface{}) interface{} {
+		m := map[string]interface{}{}
+		for i, x := range vals {
+			ctx, has := given[i+1]
+			if x == nil && !has {
+				continue
+			}
+			if !has {
+				ctx = "nil"
+			}
+			m["a"+strconv.Itoa(i+1)] = coUnbind(x, ctx)
+		}
+		return m
+	}
+	switch t := out.(type) {
+	case *coT41:
+		if t == nil {
+			return nil
+		}
+		return fields(t.A1, t.A2, t.A3)
+	case *coT40:
+		if t == nil {
+			return nil
+		}
+		return fields(t.A1, t.A2, t.A3, t.A4, t.A5)
+	case []interface{}:
+		res := make([]interface{}, len(t))
+		for i, x := range t {
+			var ctx sx.S = "nil"
+			if sx.Head(in) == "l" && i+1 < len(sx.List(in)) {
+				ctx = sx.List(in)[i+1]
+			}
+			res[i] = coUnbind(x, ctx)
+		}
+		return res
+	}
+	return out
 }
 
 // ---- C04 end to end: the value travels through a request (as a literal, or as the value of a
@@ -830,6 +896,10 @@ func coerceGen(dir string) func(r *rand.Rand, tier string) []Case {
 						Tags:  append(append([]string{}, tags...), "nontrivial", "parsed-once-resolved-twice"),
 						Human: "f(a: " + coerceTypeText(t) + ") given " + sx.String(v) + " as a literal / variable default (" + d + "), parsed once, resolved twice"})
 				}
+			}
+			if dir == "in" && strings.Contains(sx.String(t), "(input ") {
+				cases = append(cases, Case{ID: fmt.Sprintf("k%db", n), Input: sx.L("coerce", "inb", t, v),
+					Tags: append(append([]string{}, tags...), "nontrivial", "input-type-bound-to-a-go-struct"), Human: sx.String(t) + " (bound to a Go struct) <- " + sx.String(v)})
 			}
 			if dir == "in" && n%reqEvery == 0 && sdlType(t) {
 				if lit, ok := coerceLitText(v); ok {
